@@ -581,7 +581,7 @@ func openFAuth() (*fsession, error) {
 func runC16(r *Run) {
 	installHooks()
 	hub.reset()
-	r.st.Rule = "N cycles (N = 5 and 20) of each kind — dial+close, dial+peer drop+recover, dial+server close packet, failed dial, stalled peer+close, Close during a running recovery, recovery whose first attempt is refused at the session step — on TCP and WebSocket; after quiescence the number of library goroutines serving connections and the sockets still open at the peer must not grow with N (3 per open connection, none after Close); the lifecycle actions are replayed by Model/Life.v. Also cycles of a drop while the dispatcher is busy in a handler with frames queued, and Close while a recovery dial waits for a late WebSocket upgrade answer; after Close no goroutine of the library at all may be left. distinct = distinct request lines"
+	r.st.Rule = "N cycles (N = 5 and 20) of each kind — dial+close, dial+peer drop+recover, dial+server close packet, failed dial, stalled peer+close, Close during a running recovery, Close from inside the after-reconnect callback, recovery whose first attempt is refused at the session step — on TCP and WebSocket; after quiescence the number of library goroutines serving connections and the sockets still open at the peer must not grow with N (3 per open connection, none after Close); the lifecycle actions are replayed by Model/Life.v. Also cycles of a drop while the dispatcher is busy in a handler with frames queued, and Close while a recovery dial waits for a late WebSocket upgrade answer; after Close no goroutine of the library at all may be left. distinct = distinct request lines"
 	ns := []int{5}
 	if r.thorough() {
 		ns = []int{5, 20}
@@ -627,6 +627,45 @@ func runC16(r *Run) {
 						Case: trans + ": dial, drop, refused re-dials, Close in the back-off", Extra: libStacks(4000)})
 				}
 				r.st.Evaluations++
+			}
+			// N x (dial, peer drop, recovery, Close called from inside the after-reconnect callback): the connection the
+			// recovery has just established is closed by that Close like any other
+			if N <= 5 {
+				baseAll = settleAll()
+				leftOpen := 0
+				for i := 0; i < N; i++ {
+					closed := make(chan struct{})
+					s0, err := openSessionPrep(trans, 1, func(tc *testClient) { // the callback is registered before dialing, as documented
+						tc.cli.AfterReconnected(func() {
+							func() { defer func() { recover() }(); tc.cli.Close(nil) }()
+							close(closed)
+						})
+					}, client.DialTimeout(fDial))
+					if err != nil {
+						continue
+					}
+					f := &fsession{s0, settle(), -1}
+					f.lk.drop()
+					nl := f.acceptNext(3 * time.Second)
+					select {
+					case <-closed:
+					case <-time.After(3 * time.Second):
+					}
+					time.Sleep(50 * time.Millisecond)
+					if tl, ok := nl.(tcpLink); ok && !tl.pc.closed && !tl.pc.peerClosed(300*time.Millisecond) {
+						leftOpen++
+					}
+					f.close()
+				}
+				if leftOpen > 0 {
+					r.violate(Violation{What: fmt.Sprintf("%d of %d connections established by a recovery stayed open after Close was called from the after-reconnect callback", leftOpen, N), Case: trans})
+				}
+				if !waitUntil(3*time.Second, func() bool { return settleAll() <= baseAll }) {
+					r.violate(Violation{What: fmt.Sprintf("%d library goroutines left after %d cycles of Close from inside the after-reconnect callback", settleAll()-baseAll, N),
+						Case: trans + ": dial, drop, recovery, Close in the callback", Extra: libStacks(4000)})
+				}
+				r.st.Evaluations++
+				r.count("c16.close-in-after-reconnect." + trans)
 			}
 			// dial + N x (peer drop + recover)
 			if f, err := openF(trans); err == nil {
@@ -991,6 +1030,44 @@ func runC06(r *Run) {
 		r.st.Dist["c06.stalled.queue-full-errors"] += full
 		r.st.Evaluations++
 		r.checkClose(f.tc, "tcp stalled peer, writer blocked in the socket write")
+		f.close()
+	}
+	// stalled peer with the keepalive running: the heartbeat itself finds the write queue full ("keepalive failed to
+	// ping"), which starts a recovery from the keepalive goroutine; calls made afterwards still return within the bound
+	if f, err := openF("tcp", client.WriteQueueSize(1), client.Keepalive(100*time.Millisecond), client.KeepaliveTimeout(5*time.Second)); err == nil {
+		body := bigBody()
+		var chans []chan doResult
+		for i := 0; i < 30 && f.tc.log.count("keepalive failed to ping") == 0; i++ {
+			chans = append(chans, f.tc.doAsync(uint32(60+i%8), body, fReq))
+			time.Sleep(15 * time.Millisecond)
+		}
+		reached := f.tc.log.waitCount("keepalive failed to ping", 1, time.Second)
+		for i, ch := range chans {
+			r.boundedDo(f, ch, fmt.Sprintf("tcp stalled peer with keepalive 100 ms, write queue of 1, request %d", i))
+		}
+		time.Sleep(150 * time.Millisecond)
+		for k := 0; k < 3; k++ {
+			r.boundedDo(f, f.tc.doAsync(uint32(70+k), nil, fReq), "tcp stalled peer with keepalive 100 ms: call after a heartbeat found the write queue full")
+		}
+		r.st.Dist[fmt.Sprintf("c06.stalled.heartbeat-queue-full.reached-%v", reached)]++
+		r.st.Evaluations++
+		r.checkClose(f.tc, "tcp stalled peer with keepalive, after a heartbeat found the write queue full")
+		f.close()
+	}
+	// a WebSocket ping from the peer (answered by the transport itself), then a call
+	if f, err := openF("ws"); err == nil {
+		pc := f.lk.(wsLink).pc
+		pc.wmu.Lock()
+		pc.c.WriteControl(websocket.PingMessage, []byte("are-you-there"), time.Now().Add(time.Second))
+		pc.wmu.Unlock()
+		time.Sleep(100 * time.Millisecond)
+		ch := f.tc.doAsync(31, nil, fReq)
+		if q := f.lk.nextRequest(time.Second); q != nil {
+			f.lk.sendFrame(respFrame(1, 31, q.Rid, 0, []byte("ok")))
+		}
+		if res := r.boundedDo(f, ch, "ws call after a ping from the peer"); res.pkt == nil {
+			r.violate(Violation{What: "a call after a WebSocket ping from the peer was not served: " + resultStr(res), Case: "ws peer ping"})
+		}
 		f.close()
 	}
 	// the same on WebSocket: the peer keeps the connection open but stops reading
